@@ -193,6 +193,11 @@ pub fn set_key(v: &Val) -> String {
     }
 }
 
+thread_local! {
+    /// unrolling bound of `while` loops (a rule that evaluates code on a small scenario may lower it)
+    pub static WHILE_BOUND: std::cell::Cell<usize> = std::cell::Cell::new(10_000);
+}
+
 pub fn new_set() -> Val {
     Val::Ctor("$set".into(), vec![], BTreeMap::new())
 }
@@ -1122,6 +1127,15 @@ impl<'a> Evaluator<'a> {
                 if let Some(r) = (self.call_hook)(self, &tok(&c.func), &args) {
                     return r;
                 }
+                if args.is_empty() && (name == "new" || name == "default") {
+                    let t = tok(&c.func);
+                    if t.starts_with("BTreeMap::") || t.starts_with("HashMap::") || t.contains("::BTreeMap::") || t.contains("::HashMap::") {
+                        return Ok(new_map());
+                    }
+                    if t.starts_with("BTreeSet::") || t.starts_with("HashSet::") || t.contains("::BTreeSet::") || t.contains("::HashSet::") {
+                        return Ok(new_set());
+                    }
+                }
                 if let Some(Val::Closure(cl, cenv)) = env.get(&name).cloned() {
                     // a closure or nested fn called by name: it may call itself, and `&mut place` arguments are written back
                     let mut e2 = (*cenv).clone();
@@ -1474,6 +1488,11 @@ impl<'a> Evaluator<'a> {
                         }
                         "is_empty" => return Ok(Val::Bool(items.is_empty())),
                         "first" => return Ok(items.first().cloned().map(Val::some).unwrap_or(Val::none())),
+                        "get" if mc.args.len() == 1 => {
+                            if let Ok(Val::Int { v, .. }) = self.eval(&mc.args[0], env) {
+                                return Ok(usize::try_from(v).ok().and_then(|i| items.get(i)).cloned().map(Val::some).unwrap_or(Val::none()));
+                            }
+                        }
                         // collect::<Result<Vec<_>, _>>() / collect::<Option<Vec<_>>>(): the first Err / None wins
                         "collect" if mc.turbofish.as_ref().map(|t| { let t = tok(t); t.starts_with("::<Result<") || t.starts_with("::<Option<") }).unwrap_or(false) => {
                             let is_res = tok(mc.turbofish.as_ref().unwrap()).starts_with("::<Result<");
@@ -1948,7 +1967,7 @@ impl<'a> Evaluator<'a> {
             }
             Expr::While(w) => {
                 // bounded unrolling: a loop that does not finish within the bound is an analysis failure, not a result
-                for _ in 0..10_000 {
+                for _ in 0..WHILE_BOUND.with(|b| b.get()) {
                     let mut e2 = env.clone();
                     if let Expr::Let(l) = &*w.cond {
                         // `while let PAT = EXPR`
@@ -1986,7 +2005,7 @@ impl<'a> Evaluator<'a> {
                         }
                     }
                 }
-                Err("while loop did not terminate within 10000 iterations".into())
+                Err(format!("while loop did not terminate within {} iterations", WHILE_BOUND.with(|b| b.get())))
             }
             Expr::Try(t) => match self.eval(&t.expr, env)? {
                 Val::Ctor(n, p, _) if n == "Ok" || n == "Some" => Ok(p.into_iter().next().unwrap_or(Val::Unit)),
